@@ -16,6 +16,7 @@ import (
 	"testing"
 	"time"
 
+	"github.com/saucelabs/forwarder"
 	"github.com/saucelabs/forwarder/internal/zzverif/explore"
 	"github.com/saucelabs/forwarder/internal/zzverif/h1x"
 	"github.com/saucelabs/forwarder/internal/zzverif/httpwire"
@@ -91,6 +92,17 @@ func scenario(x *explore.X, maxSegs int, withBackPressure bool) {
 			res := &http.Response{StatusCode: 200, Status: "200 OK", Proto: "HTTP/1.1", ProtoMajor: 1, ProtoMinor: 1,
 				Header: http.Header{}, Body: http.NoBody, ContentLength: -1, Request: req}
 			return res, c, nil
+		}
+	}
+	// per-request server timeouts of the library configuration (HTTPServerConfig.ReadTimeout / WriteTimeout):
+	// they bound reading one request and writing one response, a tunnel is neither
+	srvTO := []string{"none", "write-timeout", "read-timeout"}[x.Choose("server-timeouts", 3)]
+	opts.Tweak = func(cfg *forwarder.HTTPProxyConfig, _ *forwarder.HTTPTransportConfig) {
+		switch srvTO {
+		case "write-timeout":
+			cfg.WriteTimeout = 30 * time.Second
+		case "read-timeout":
+			cfg.ReadTimeout = 30 * time.Second
 		}
 	}
 	var err error
@@ -226,7 +238,7 @@ func scenario(x *explore.X, maxSegs int, withBackPressure bool) {
 	}
 	// ---- explore all interleavings of the remaining script events ------------------------------
 	cFin, tFin := false, false
-	hist := fmt.Sprintf("%s|aged=%v|close=%v|c%v|t%v|", routings[routing], aged, upClose, lens(cs), lens(ts))
+	hist := fmt.Sprintf("%s|aged=%v|close=%v|to=%s|c%v|t%v|", routings[routing], aged, upClose, srvTO, lens(cs), lens(ts))
 	check := func(ev string) bool {
 		x.Check()
 		gotT, gotC := tg.Recv(), cl.Recv()
